@@ -68,7 +68,7 @@ impl Morsel {
     /// Returns `None` if the split point is outside the morsel range.
     #[must_use]
     pub fn split_at(&self, offset: usize) -> Option<(Morsel, Morsel)> {
-        let split_row = self.start_row + offset;
+        let split_row = self.start_row.checked_add(offset)?;
         if split_row <= self.start_row || split_row >= self.end_row {
             return None;
         }
@@ -127,11 +127,11 @@ pub fn generate_morsels(total_rows: usize, morsel_size: usize, source_id: usize)
         return Vec::new();
     }
 
-    let num_morsels = (total_rows + morsel_size - 1) / morsel_size;
+    let num_morsels = (total_rows - 1) / morsel_size + 1;
     let mut morsels = Vec::with_capacity(num_morsels);
 
     for (id, start) in (0..total_rows).step_by(morsel_size).enumerate() {
-        let end = (start + morsel_size).min(total_rows);
+        let end = start.saturating_add(morsel_size).min(total_rows);
         morsels.push(Morsel::new(id, source_id, start, end));
     }
 
